@@ -481,6 +481,64 @@ func runCheck(spec *PropSpec, tier string, seed int, accept, verbose bool, overl
 		}
 	}
 
+	// ---- thorough tier: every replay harness that belongs to an obligation of this check is run against the real
+	// code of the current tree. A harness tied to a repaired defect must pass (the failing input no longer fails); one
+	// tied to a listed finding is expected to reproduce it. A harness that fails although its obligations are
+	// discharged is a violation found dynamically.
+	var replayRuns []map[string]any
+	if tier == "thorough" && !accept {
+		var hs []HarnessSpec
+		if err := loadJSON(filepath.Join(verifRoot, "replay", "harness.json"), &hs); err == nil {
+			var names []string
+			for _, fr := range results {
+				for n := range fr.Logical {
+					names = append(names, n)
+				}
+			}
+			sort.Strings(names)
+			for _, h := range hs {
+				re, err := regexp.Compile(h.Match)
+				if err != nil {
+					continue
+				}
+				match := ""
+				for _, n := range names {
+					if re.MatchString(n) {
+						match = n
+						break
+					}
+				}
+				if match == "" {
+					continue
+				}
+				expectFail := false
+				for _, kf := range known {
+					if kf.Kind == "finding" && re.MatchString(kf.Obligation) {
+						expectFail = true // a listed finding (of this or another property sharing the function)
+					}
+				}
+				out, passed, err := goTestOverlay(h.Dir, h.Pkg, filepath.Join(verifRoot, "replay", h.Test), h.Run, filepath.Join(verifRoot, "work", id), nil, 300)
+				rr := map[string]any{"harness": h.Test, "run": h.Run, "obligation": match, "passed": passed, "expected_to_fail": expectFail}
+				if err != nil || strings.Contains(out, "[build failed]") || strings.Contains(out, "[setup failed]") {
+					rr["verdict"] = "harness-does-not-run"
+					rr["output"] = out
+				} else if passed == !expectFail {
+					rr["verdict"] = "as-expected"
+				} else if !passed && !expectFail {
+					rr["verdict"] = "violation-reproduced-on-real-code"
+					rr["output"] = out
+					boundedViol++
+					rp := writeReplay(id, "replay/"+h.Test, map[string]any{"obligation": match, "kind": "replay", "harness": h.Test, "run": h.Run, "output": out})
+					fmt.Printf("VIOLATION property=%s replay=%s\n", id, rp)
+					fmt.Printf("  replay harness %s (%s) fails on the current tree\n", h.Test, h.Run)
+				} else {
+					rr["verdict"] = "listed finding not reproduced by its harness"
+				}
+				replayRuns = append(replayRuns, rr)
+			}
+		}
+	}
+
 	// ---- report ----
 	exit := 0
 	nViol := boundedViol
@@ -644,6 +702,7 @@ func runCheck(spec *PropSpec, tier string, seed int, accept, verbose bool, overl
 		"side_findings":            sideFindings,
 		"known_findings":           knownOut,
 		"bounded":                  boundedOut,
+		"replays_on_real_code":     replayRuns,
 		"vacuity":                  map[string]any{"cover_queries": covers, "vacuous": vacuous},
 		"not_covered":              spec.NotCovered,
 		"explanation":              "obligations are logical proof obligations (post/pre/invariant/assert clauses) of the functions under contract, each possibly split into several SMT queries (one per return point, call site or back edge); safety side conditions (nil, index, overflow) are checked but reported separately and not counted",
